@@ -121,6 +121,23 @@ fn judge_level(src: &Path, content: &[u8], c: CompressionWithLevel) -> (Option<(
 }
 
 fn odd_strings() -> Vec<String> {
+    let mut v = odd_strings_base();
+    // multi-byte characters straddling every byte position around the fixed-size fields of the lead
+    // (66-byte name) and other small powers of two
+    for boundary in [16usize, 32, 64, 65, 66, 128, 255, 256] {
+        for back in 0..4usize {
+            for ch in ["é", "語", "🦀"] {
+                let mut s = "n".repeat(boundary.saturating_sub(back));
+                s.push_str(ch);
+                s.push_str("tail");
+                v.push(s);
+            }
+        }
+    }
+    v
+}
+
+fn odd_strings_base() -> Vec<String> {
     vec![
         String::new(),
         "\0".into(),
